@@ -99,7 +99,7 @@ static std::vector<std::string> kid_muts() { return {"char-changed", "last-char-
 static std::vector<std::string> num_muts(const NumCtx &n) {
   std::vector<std::string> v = {"+1", "-1", "random-residue", "zero", "one", "two", "4096-bit", "minus-sign", "non-digit-text", "foreign-char-inside", "empty", "leading-zero", "leading-space", "digit-changed", "last-digit-dropped", "first-digit-dropped", "hex-prefix"};
   if (!n.modulus) for (const char *s : {"m-1", "m", "+m", "-m", "negated(m-v)"}) v.push_back(s);
-  if (n.roots) { v.push_back("other-root"); v.push_back("other-root-negated"); }
+  if (n.roots) for (const char *s : {"other-root", "other-root-negated", "root-of-square-with-altered-padding-bytes", "root-of-square-with-altered-hash-bytes"}) v.push_back(s);
   if (n.cipher) { v.push_back("times-4"); v.push_back("squared"); }
   if (n.modulus) for (const char *s : {"+2", "prime-factor-p", "m-squared", "other-key-modulus", "m-times-3"}) v.push_back(s);
   return v;
@@ -116,6 +116,15 @@ static std::string num_mut(Ctx &ctx, const std::string &mu, const NumCtx &n, con
   else if (mu == "negated(m-v)") r = m - v; else if (mu == "minus-sign") r = -v;
   else if (mu == "4096-bit") { r = zrand_bits(ctx, 4100) | 1; mpz_setbit(r.get_mpz_t(), 4099); }
   else if (mu == "other-root" || mu == "other-root-negated") { Z rt[4]; roots4(*n.K, zmod(v * v, m), rt); size_t i = (rt[0] == v || rt[1] == v) ? 2 : 0; r = rt[i + (mu == "other-root" ? 0 : 1)]; }
+  else if (mu == "root-of-square-with-altered-padding-bytes" || mu == "root-of-square-with-altered-hash-bytes") {
+    // PRab layout of the square (mnsize bytes, big endian): hash w | masked r | padding gamma.  A residue that differs only in gamma (or only in w) has a root the key owner can compute.
+    size_t mn = mpz_sizeinbase(m.get_mpz_t(), 2) / 8, g = mn - gcry_md_get_algo_dlen(TMCG_GCRY_MD_ALGO) - TMCG_PRAB_K0; Z s = zmod(v * v, m), s2, rt[4];
+    for (unsigned long d = 1;; d++) {
+      if (mu == "root-of-square-with-altered-padding-bytes") { s2 = s + d; if ((s2 >> (8 * g)) != (s >> (8 * g))) s2 = s - d; }
+      else { s2 = s; mpz_combit(s2.get_mpz_t(), 8 * mn - d); }
+      if (s2 > 0 && s2 < m && is_qr(*n.K, s2)) break;
+    }
+    roots4(*n.K, s2, rt); r = rt[ctx.c.index(4)]; }
   else if (mu == "times-4") r = zmod(4 * v, m); else if (mu == "squared") r = zmod(v * v, m);
   else if (mu == "prime-factor-p") r = n.K->p; else if (mu == "m-squared") r = v * v; else if (mu == "m-times-3") r = v * 3;
   else if (mu == "other-key-modulus") { const Key &O = other_key(ctx, *n.K); r = O.m; }
@@ -322,7 +331,7 @@ static void tamper_sigenc(Ctx &ctx, bool cipher) {
   }
   if (acc1 || acc2) ctx.fail(std::string("tamper/") + obj + "/" + tag + "-accepted", ctx.desc.str() + (cipher ? "" : std::string(acc1 ? " [public key]" : "") + (acc2 ? " [secret key]" : "")));
 }
-VF_ENUM(signature_tamper, 2412, 40200) { tamper_sigenc(ctx, false); }
+VF_ENUM(signature_tamper, 2484, 41400) { tamper_sigenc(ctx, false); }
 VF_ENUM(ciphertext_tamper, 2412, 40200) { tamper_sigenc(ctx, true); }
 
 // (3b)/(4b) the recovered square / root carries bits above the byte-aligned padding width 8*floor(|m|/8):
@@ -476,7 +485,7 @@ static std::string proof_text(const Proof &P) { std::string s = "nzk^"; for (siz
 
 static void key_check_case(Ctx &ctx);
 #include <chrono>
-VF_ENUM(key_check, 1641, 6252) { // 547 (thorough 1563) tasks x 3 (4) key sizes, visited in a stride order so that the expensive proof tasks spread over the shards
+VF_ENUM(key_check, 1653, 6268) { // 551 (thorough 1567) tasks x 3 (4) key sizes, visited in a stride order so that the expensive proof tasks spread over the shards
   auto t0 = std::chrono::steady_clock::now(); key_check_case(ctx); double dt = std::chrono::duration<double>(std::chrono::steady_clock::now() - t0).count(); if (getenv("C10_TIMING")) fprintf(stderr, "T %.3f %s\n", dt, ctx.desc.str().substr(0, 110).c_str()); }
 static void key_check_case(Ctx &ctx) {
   std::vector<KTask> &T = key_tasks(ctx.thorough); size_t i = ctx.c.raw(), ns = nsizes(ctx);
